@@ -1,3 +1,63 @@
 (* C02 -- property theorems only.  Proofs live in C02/Proofs*.v. *)
 From Coq Require Import NArith List.
-From DV Require Import Base.Outcome Base.Bytes Base.Names Base.PName C02.Gen C02.Model.
+From DV Require Import Base.Outcome Base.Bytes Base.Names Base.PName C02.Gen C02.Model
+  C02.ProofsBasic C02.ProofsRun C02.ProofsName C02.ProofsComp C02.ProofsStatic C02.ProofsHash C02.ProofsTop.
+Import ListNotations.
+Local Open Scope N_scope.
+
+(* A failed push (target full, push limit, count overflow) leaves the whole
+   builder state - octets, counts, stream length octets, compressor tables,
+   section bookkeeping - exactly as it was, in every state an arbitrary
+   operation sequence can reach, for every target and compressor. *)
+Theorem C02_failed_push_unchanged : forall c ops s0 s a ws o s' e,
+  init c = Some s0 -> run_acc c s0 acc0 ops = (s, a, ws) -> all_alive ws ->
+  step c s o = (s', RErr e) -> s' = s.
+Proof. exact failed_push_unchanged. Qed.
+Print Assumptions C02_failed_push_unchanged.
+
+(* In every reachable state: all remembered offsets of all three compressors
+   lie inside the buffer and below 0x4000; header counts equal the numbers of
+   accepted pushes per section; with a stream target the two length octets
+   equal the message length, which is at most 65535. *)
+Theorem C02_reachable_tables_counts_shim : forall c ops s0 s a ws,
+  init c = Some s0 -> run_acc c s0 acc0 ops = (s, a, ws) -> all_alive ws ->
+  TBound (b_w s) /\ CountInv s a /\
+  (t_stream c = true ->
+     stream_of s = be16 (mlen (msg_of s)) ++ msg_of s /\ mlen (msg_of s) <= 65535).
+Proof. exact reachable_inv. Qed.
+Print Assumptions C02_reachable_tables_counts_shim.
+
+(* The reader model (ParsedName::parse + label iteration) returns exactly the
+   name stored at a position, following compression pointers. *)
+Theorem C02_reader_reconstructs_stored_name : forall m (ok : N -> Prop) lim,
+  (forall i, ok i -> i < lim) ->
+  forall seg p ls e, NameIn m ok seg p ls e -> name_ok ls -> decode_name m p lim = Ok (ls, e).
+Proof. exact decode_name_ok. Qed.
+Print Assumptions C02_reader_reconstructs_stored_name.
+
+(* append_compressed_name of every compressor keeps the compressor invariant
+   (every remembered offset is the start of a stored name: static, tree keyed
+   by the exact labels, hash entries with head label and tail position) and
+   stores, where it wrote, a name equal to the pushed one up to ASCII case. *)
+Theorem C02_compressors_keep_invariant : forall c, AcnSpec c (acn c).
+Proof. exact acn_ok. Qed.
+Print Assumptions C02_compressors_keep_invariant.
+
+(* Name compression never changes which name a reader reconstructs (all four
+   compressor choices, DNS name equality). *)
+Theorem C02_compression_transparent : forall c n w w',
+  WGood c w -> name_ok n -> acn c n w = WOk w' ->
+  WGood c w' /\
+  exists n', decode_name (w_buf w') (mlen (w_buf w)) (mlen (w_buf w')) = Ok (n', mlen (w_buf w')) /\
+             name_eqb n' n = true.
+Proof. exact compression_transparent. Qed.
+Print Assumptions C02_compression_transparent.
+
+(* Without a compressor and with the tree compressor the reader gets back the
+   very octets of the name (no case change). *)
+Theorem C02_compression_exact_none_tree : forall c n w w',
+  (t_kind c = KNone \/ t_kind c = KTree) ->
+  WGood c w -> name_ok n -> acn c n w = WOk w' ->
+  decode_name (w_buf w') (mlen (w_buf w)) (mlen (w_buf w')) = Ok (n, mlen (w_buf w')).
+Proof. exact compression_exact. Qed.
+Print Assumptions C02_compression_exact_none_tree.
